@@ -49,7 +49,7 @@ var c14ProgramsMore = []string{
 	`BEGIN { print "only begin" }`,
 }
 
-var c14Inputs = []string{`[1,2]`, `{"a":[3],"b":{"c":1}}`, `5`, "[1]\n{\"a\":2,\"b\":3}", ``, `[1,`}
+var c14Inputs = []string{`[1,2]`, `{"a":[3],"b":{"c":1}}`, `5`, "[1]\n{\"a\":2,\"b\":3}", ``, `[1,`, `{"a":["100% %s %d","%v"],"b":{"50%":"a%20b"}}`}
 var c14InputsMore = []string{`null`, `{"a":{"a":[]},"b":"s"}`, "1 2 3\n", `[[1,2],[3]]`, `]`, `{"a":1e400}`}
 
 var c14Selectors = [][]string{nil, {"$.a"}, {"$.a", "$.b"}, {"$.a.nope()"}}
@@ -295,12 +295,36 @@ func c14RootSelector(c *fw.Ctx, prog, input, sel string) *fw.Violation {
 	return nil
 }
 
+// c14SelectorConcat: selectors are processed in the order given, each on the document as read: for a program that keeps
+// no state between roots, `-r E1 -r E2` prints what `-r E1` prints followed by what `-r E2` prints, and `-o` shows the
+// last root as `-r E2` alone leaves it.
+var c14ConcatProgs = []string{`{ print }`, `{ $.n = 1; print $ }`, `{ if ($ is array) { $.push(9) } print $ }`, `BEGINFILE { print "bf", $ } { if ($ is object) { $.z = [] } }  ENDFILE { print "ef", $ }`}
+var c14ConcatSels = []string{"$", "$.a", "$.b", "$.a[0]", "[$.a, $.a]"}
+var c14ConcatInputs = []string{`{"a":[{"n":5},{"n":6}],"b":{"c":1}}`, `{"a":[[1],[2]],"b":[3]}`}
+
+func c14SelectorConcat(c *fw.Ctx, prog, input, e1, e2 string) *fw.Violation {
+	both := c14Exec([]string{"-r", e1, "-r", e2, "-o", "-", prog}, input)
+	one := c14Exec([]string{"-r", e1, prog}, input)
+	two := c14Exec([]string{"-r", e2, "-o", "-", prog}, input)
+	c.Evals += 3
+	c.Traces++
+	c.Transitions += 3
+	if one.Exit != 0 || two.Exit != 0 {
+		return nil // a failing selector ends the run early; not this law
+	}
+	if both.Exit != 0 || both.Stdout != one.Stdout+two.Stdout {
+		return &fw.Violation{What: "-r E1 -r E2 is not -r E1 followed by -r E2, each on the document as read", Detail: map[string]any{"program": prog, "selectors": []string{e1, e2}, "input": input, "together": both, "first alone": one, "second alone (with -o -)": two}}
+	}
+	c.State("selector lists concatenate")
+	return nil
+}
+
 func init() {
 	fw.Register(&fw.Prop{
 		ID: "C14",
-		Rule: "the full product {inline, -f} x {stdin, one file, two files, a missing file, a directory as file, the same file twice} x {no selector, one, two, a failing one} x {no -o, -o -, -o FILE, -o into a missing directory} x 14 programs (silent, printing, mutating $, BEGINFILE replacing $, exit, syntax error, runtime error before / after output, $file, END, exit in BEGIN, state across values, CR LF / lone CR / LF CR inside literals and between statements) x 6 inputs (array, object, scalar, two values, empty, malformed), on the real binary; " +
+		Rule: "the full product {inline, -f} x {stdin, one file, two files, a missing file, a directory as file, the same file twice} x {no selector, one, two, a failing one} x {no -o, -o -, -o FILE, -o into a missing directory} x 14 programs (silent, printing, mutating $, BEGINFILE replacing $, exit, syntax error, runtime error before / after output, $file, END, exit in BEGIN, state across values, CR LF / lone CR / LF CR inside literals and between statements) x 7 inputs (array, object, scalar, two values, empty, malformed, strings full of % directives), on the real binary; " +
 			"oracle: the in-process library run of the same program, selectors and inputs (stdout, outcome, JSON output) plus the wrapper laws (exit 0 iff success and nothing refused, diagnostic on stderr otherwise, no stack trace, -o FILE == bytes of -o -, a missing file refused before any output); " +
-			"and -r E == BEGINFILE { $ = E } for every program without BEGINFILE/ENDFILE x every input x 6 selectors; thorough doubles the three alphabets; a state is (source, -o mode, selector list, -f, library outcome); non-trivial = same",
+			"-r E1 -r E2 == -r E1 followed by -r E2 for 4 stateless (mutating) programs x 2 documents x all ordered pairs of 5 overlapping selectors; and -r E == BEGINFILE { $ = E } for every program without BEGINFILE/ENDFILE x every input x 6 selectors; thorough doubles the three alphabets; a state is (source, -o mode, selector list, -f, library outcome); non-trivial = same",
 		Plan:  func(t fw.Tier) int { return 2 * c14NSource * c14NOut },
 		Bound: func(t fw.Tier) string { return "full configuration product" },
 		Assumptions: []string{"the library run through mc/drive is the reference (its own correctness is the business of the other properties)", "when nothing was decoded, -o may either refuse or write nothing"},
@@ -318,6 +342,16 @@ func init() {
 				}
 			}
 			if u == 0 {
+				for _, prog := range c14ConcatProgs {
+					for _, in := range c14ConcatInputs {
+						for _, e1 := range c14ConcatSels {
+							for _, e2 := range c14ConcatSels {
+								prog, in, e1, e2 := prog, in, e1, e2
+								c.Do(func() any { return map[string]string{"form": "selconcat", "prog": prog, "input": in, "sel": e1, "sel2": e2} }, func() *fw.Violation { return c14SelectorConcat(c, prog, in, e1, e2) })
+							}
+						}
+					}
+				}
 				for _, prog := range al.progs {
 					for _, in := range al.inputs {
 						for _, sel := range []string{"$.a", "$.b", "$", "$.a.a", "[$, 1]", "$.nope.x()"} {
@@ -337,6 +371,9 @@ func init() {
 		Replay: func(c *fw.Ctx, raw json.RawMessage) *fw.Violation {
 			var m map[string]any
 			json.Unmarshal(raw, &m)
+			if m["form"] == "selconcat" {
+				return c14SelectorConcat(c, m["prog"].(string), m["input"].(string), m["sel"].(string), m["sel2"].(string))
+			}
 			if m["form"] == "rootsel" {
 				return c14RootSelector(c, m["prog"].(string), m["input"].(string), m["sel"].(string))
 			}
